@@ -1,29 +1,51 @@
 //! Which scenarios decide which property, and at what volume per tier.
 
 use crate::t1::{run_t1, RunOut, T1Opts, T1Profile};
+use crate::t2::{run_t2, T2Kind, T2Profile};
 use crate::tape::Tape;
 
 #[derive(Clone)]
 pub enum Scenario {
     T1(T1Profile),
+    T2(T2Profile),
 }
 
 impl Scenario {
     pub fn name(&self) -> &'static str {
         match self {
             Scenario::T1(p) => p.name,
+            Scenario::T2(p) => p.name,
         }
     }
     pub fn run(&self, tape: Tape, want_sample: bool) -> RunOut {
         match self {
             Scenario::T1(p) => run_t1(p, tape, &T1Opts { want_sample, keep_log: true }),
+            Scenario::T2(p) => run_t2(p, tape, want_sample),
         }
     }
     pub fn topology(&self) -> &'static str {
         match self {
             Scenario::T1(_) => "T1 real client <-> real server",
+            Scenario::T2(_) => "T2 real endpoint <-> scripted peer",
         }
     }
+}
+
+pub fn t2(name: &'static str, kind: T2Kind, e_client: Option<bool>) -> T2Profile {
+    T2Profile { name, kind, e_client, max_steps: 400_000, io_noise: true }
+}
+
+pub fn t2_all() -> Vec<T2Profile> {
+    vec![
+        t2("t2-legal", T2Kind::Legal, None),
+        t2("t2-violation", T2Kind::Violation, None),
+        t2("t2-malformed", T2Kind::Malformed, None),
+        t2("t2-hpack", T2Kind::Hpack, None),
+        t2("t2-flood", T2Kind::Flood, None),
+        t2("t2-corrupt", T2Kind::Corrupt, None),
+        t2("t2-ackpressure", T2Kind::AckPressure, None),
+        t2("t2-exhaust", T2Kind::Exhaust, Some(false)),
+    ]
 }
 
 pub struct Entry {
@@ -100,23 +122,80 @@ pub fn all_scenarios() -> Vec<Scenario> {
         Scenario::T1(t1_aborts()),
         Scenario::T1(t1_fatal()),
         Scenario::T1(t1_shutdown()),
+        Scenario::T1(t1_conc()),
+        Scenario::T1(t1_headers()),
     ]
+    .into_iter()
+    .chain(t2_all().into_iter().map(Scenario::T2))
+    .collect()
 }
 
 pub fn scenario_by_name(n: &str) -> Option<Scenario> {
     all_scenarios().into_iter().find(|s| s.name() == n)
 }
 
+pub fn t1_conc() -> T1Profile {
+    let mut p = T1Profile::base("t1-conc");
+    p.max_streams = 24;
+    p.work.max_body = 3000;
+    p.work.aborts = true;
+    p.work.stop_reading = true;
+    p.cfg_space.zero_concurrency = false;
+    p.settings_changes = false;
+    p
+}
+
+pub fn t1_headers() -> T1Profile {
+    let mut p = T1Profile::base("t1-headers");
+    p.work.max_header_fields = 40;
+    p.work.header_budget = 60_000;
+    p.work.max_body = 2000;
+    p.max_streams = 10;
+    p
+}
+
 pub fn entries_for(prop: &str) -> Vec<Entry> {
     let e = |s: Scenario, q: u64, t: u64| Entry { scenario: s, quick: q, thorough: t };
+    let t1 = |p: T1Profile| Scenario::T1(p);
+    let t2s = |n: &str| Scenario::T2(t2_all().into_iter().find(|p| p.name == n).unwrap());
     match prop {
         "C01" => vec![
-            e(Scenario::T1(t1_coop()), 6000, 200_000),
-            e(Scenario::T1(t1_coop_settings()), 3000, 100_000),
-            e(Scenario::T1(t1_aborts()), 3000, 100_000),
-            e(Scenario::T1(t1_fatal()), 2000, 60_000),
+            e(t1(t1_coop()), 5000, 200_000),
+            e(t1(t1_coop_settings()), 3000, 100_000),
+            e(t1(t1_aborts()), 3000, 100_000),
+            e(t1(t1_headers()), 1500, 50_000),
+            e(t1(t1_push()), 1500, 50_000),
+            e(t1(t1_fatal()), 2000, 60_000),
         ],
-        "C06" => vec![e(Scenario::T1(t1_coop()), 6000, 200_000), e(Scenario::T1(t1_coop_settings()), 6000, 200_000), e(Scenario::T1(t1_aborts()), 3000, 100_000)],
+        "C02" => vec![e(t1(t1_coop_settings()), 6000, 200_000), e(t1(t1_aborts()), 4000, 150_000), e(t1(t1_coop()), 3000, 100_000), e(t1(t1_conc()), 2000, 60_000)],
+        "C03" => vec![
+            e(t1(t1_coop_settings()), 4000, 150_000),
+            e(t1(t1_aborts()), 4000, 150_000),
+            e(t2s("t2-exhaust"), 4000, 150_000),
+            e(t1(t1_push_unadopted()), 2500, 80_000),
+            e(t2s("t2-legal"), 2000, 60_000),
+            e(t1(t1_coop()), 1500, 50_000),
+        ],
+        "C04" => vec![
+            e(t1(t1_aborts()), 5000, 150_000),
+            e(t1(t1_coop()), 2000, 60_000),
+            e(t1(t1_headers()), 1500, 50_000),
+            e(t1(t1_push()), 2000, 60_000),
+            e(t1(t1_fatal()), 2000, 60_000),
+            e(t1(t1_shutdown()), 2000, 60_000),
+        ],
+        "C05" => vec![e(t1(t1_conc()), 6000, 200_000), e(t1(t1_aborts()), 3000, 100_000), e(t1(t1_coop_settings()), 2000, 60_000)],
+        "C06" => vec![e(t1(t1_coop()), 5000, 200_000), e(t1(t1_coop_settings()), 5000, 200_000), e(t1(t1_aborts()), 3000, 100_000), e(t1(t1_conc()), 1500, 50_000), e(t1(t1_push()), 1500, 50_000)],
+        "C08" => vec![e(t2s("t2-corrupt"), 8000, 300_000), e(t2s("t2-violation"), 3000, 100_000), e(t2s("t2-flood"), 1500, 40_000), e(t2s("t2-hpack"), 2000, 60_000), e(t2s("t2-malformed"), 2000, 60_000), e(t1(t1_fatal()), 2000, 60_000)],
+        "C09" => vec![e(t2s("t2-violation"), 8000, 300_000), e(t2s("t2-legal"), 6000, 200_000), e(t1(t1_aborts()), 3000, 100_000), e(t1(t1_coop()), 2000, 60_000), e(t1(t1_push()), 1500, 50_000)],
+        "C11" => vec![e(t2s("t2-hpack"), 12000, 400_000)],
+        "C13" => vec![e(t2s("t2-malformed"), 12000, 400_000)],
+        "C18" => vec![e(t2s("t2-flood"), 4000, 100_000)],
+        "C10" => vec![e(t1(t1_headers()), 5000, 200_000), e(t1(t1_coop()), 3000, 100_000), e(t1(t1_push()), 1500, 50_000)],
+        "C12" => vec![e(t1(t1_coop()), 3000, 100_000), e(t1(t1_headers()), 3000, 100_000), e(t2s("t2-legal"), 3000, 100_000), e(t2s("t2-violation"), 2000, 60_000), e(t1(t1_aborts()), 1500, 50_000)],
+        "C14" => vec![e(t1(t1_coop_settings()), 5000, 200_000), e(t2s("t2-ackpressure"), 5000, 200_000), e(t2s("t2-violation"), 2000, 60_000), e(t1(t1_aborts()), 2000, 60_000)],
+        "C17" => vec![e(t1(t1_aborts()), 8000, 250_000), e(t1(t1_conc()), 2000, 60_000), e(t1(t1_fatal()), 2000, 60_000)],
+        "C19" => vec![e(t1(t1_coop()), 4000, 150_000), e(t1(t1_aborts()), 4000, 150_000), e(t1(t1_conc()), 2000, 60_000), e(t1(t1_push_unadopted()), 1500, 50_000)],
         _ => vec![],
     }
 }
